@@ -24,8 +24,8 @@ import (
 	"verif/engine/report"
 )
 
-var leaves = []string{"0", "1", "2", "3", "7", "127", "128", "255", "256", "32767", "32768", "65535", "65536", "2147483647", "2147483648", "4294967295", "4294967296", "9223372036854775807", "9223372036854775808", "18446744073709551615", "18446744073709551616", "1606938044258990275541962092341162602522202993782792835301376", "'a'", "'\\x00'", "1.5", "0.1", "1e100", "1e-100", "3.4e38", "3.5e38", "1e39", "1.7e308", "1e309", "1e-46", "2i", "3.5e38i", "1e39i", "1e309i", `"ab"`, `""`, "true", "false"}
-var smallLeaves = []string{"0", "1", "3", "127", "128", "255", "9223372036854775807", "18446744073709551616", "'a'", "1.5", "3.5e38", "2i", "1e39i", `"ab"`, "true"}
+var leaves = []string{"0", "1", "2", "3", "7", "127", "128", "255", "256", "32767", "32768", "65535", "65536", "2147483647", "2147483648", "4294967295", "4294967296", "9223372036854775807", "9223372036854775808", "18446744073709551615", "18446744073709551616", "1606938044258990275541962092341162602522202993782792835301376", "'a'", "'\\x00'", "1.5", "0.1", "1e100", "1e-100", "3.4e38", "3.5e38", "1e39", "1.7e308", "1e309", "1e-46", "2i", "0i", "3.5e38i", "1e39i", "1e309i", `"ab"`, `""`, "true", "false"}
+var smallLeaves = []string{"0", "1", "3", "127", "128", "255", "9223372036854775807", "18446744073709551616", "'a'", "1.5", "3.5e38", "2i", "0i", "1e39i", `"ab"`, "true"}
 var binops = []string{"+", "-", "*", "/", "%", "&", "|", "^", "&^", "<<", ">>", "==", "!=", "<", "<=", ">", ">=", "&&", "||"}
 var unops = []string{"+", "-", "^", "!"}
 var convs = []string{"int", "int8", "int16", "int32", "int64", "uint", "uint8", "uint16", "uint32", "uint64", "uintptr", "float32", "float64", "complex64", "complex128", "string", "bool"}
@@ -413,7 +413,7 @@ func cases(thorough bool) []kase {
 	lv := smallLeaves
 	if !thorough {
 		ops2 = []string{"+", "-", "*", "/", "<<", "==", "<", "&&", "&"}
-		lv = []string{"1", "3", "128", "9223372036854775807", "'a'", "1.5", `"ab"`, "true"}
+		lv = []string{"1", "3", "128", "9223372036854775807", "'a'", "1.5", "2i", `"ab"`, "true"}
 	}
 	var exprs2 []string
 	for _, o1 := range ops2 {
